@@ -57,7 +57,32 @@ SCALED_POOL = [1, 2, 3, 10, 10, 100, 1000, 10000, 12345, 2 ** 20]
 
 
 def tok(s):
-    return "-" if s == "" else s.replace(" ", "~")
+    return "-" if s == "" else s.replace(" ", "~").replace("\t", "^")
+
+
+def untok(t):
+    return "" if t == "-" else t.replace("~", " ").replace("^", "\t")
+
+
+# first words of signature names / spreadsheet identifiers: 0, 1, 2, 3 periods, leading / trailing period,
+# NCBI `|` style; and what may follow the first word
+WORD_FORMS = ["s{i}", "acc{i}.{v}", "MGYG{i}.000{i}.{v}", "a{i}.b.c.{v}", "trail{i}.", "gi|{i}|ref|NC_{i}.{v}|",
+              "GCF_{i}.{v}", "w{i}.{v}.x"]
+TAILS = ["", " G{i} sp", "  two spaces", " strain K-12 substr. MG1655", "\tafter a tab", " x\ty", " ."]
+
+
+def gen_name(rng, i, allow_leading=False):
+    w = rng.choice(WORD_FORMS + ([".lead{i}"] if allow_leading else [])).format(i=i, v=rng.randint(1, 3))
+    return w + rng.choice(TAILS).format(i=i)
+
+
+def doc_norm(ident, si, kv):
+    "the documented normalisation of --split-identifiers / --keep-identifier-versions, the same for both sides"
+    if si:
+        ident = ident.split(" ")[0]
+        if not kv:
+            ident = ident.split(".")[0]
+    return ident
 
 
 def sig_md5(ksize, mol, scaled, num, hs):
@@ -311,12 +336,13 @@ def gen_index_case(rng):
     pool = sorted(set(rng.sample(range(1, 40), rng.randint(3, 8)) + [M, M + 1 if M < U64 else M]))
     nsig = rng.randint(1, 6)
     names, sig_hs = [], []
+    lead = rng.randrange(nsig)                                    # at most one name starting with a period
     for i in range(nsig):
-        name = rng.choice(NAME_FORMS).format(i=i, v=rng.randint(1, 3))
+        name = tok(gen_name(rng, i, allow_leading=(i == lead)))
         fname = "-"
         r = rng.random()
         if r < 0.1:
-            name, fname = "-", f"file{i}.sig"
+            name, fname = "-", tok(rng.choice([f"file{i}.sig", f"dir.{i}_f{i}.v2.sig", f"f{i} copy.sig"]))
         elif r < 0.13:
             name = "-"                                            # neither name nor filename: md5 prefix
         hs = rng.sample(pool, rng.randint(0, len(pool)))
@@ -332,7 +358,7 @@ def gen_index_case(rng):
         m_i = mol if rng.random() > 0.05 else 1 - mol
         opt = (f" mol={m_i}" if m_i else "") + f" md5={sig_md5(k, m_i, s_sc, num, hs)}"
         lines.append(f"sig {i} {name} {fname} {s_sc} {num} {k} {join_or(',', [str(h) for h in hs])}{opt}")
-        names.append(name.replace("~", " ") if name != "-" else (fname if fname != "-" else ""))
+        names.append(untok(name) if name != "-" else untok(fname))
         sig_hs.append(hs)
     # options
     opts = [f"k{ksize}", f"s{S}", f"m{mol}"]
@@ -351,14 +377,12 @@ def gen_index_case(rng):
     junk = ["j"] * max(C - 2, 0)
 
     def ident_of(name):
-        i = name
-        if si:
-            i = i.split(" ")[0]
-            if not kv:
-                i = i.split(".")[0]
-        if rng.random() < 0.1:
-            i = name                                              # written the other way: may not be found
-        return i
+        # the spreadsheet identifier is written independently of how the signature side is normalised:
+        # the full name, its first word, the first word without its last `.version`, its prefix before the
+        # first period, with trailing blanks, or what the options make of the name
+        word = name.split(" ")[0]
+        return rng.choice([name, word, word, word.rsplit(".", 1)[0], word.split(".")[0], word + " ", word + "  extra",
+                           doc_norm(name, si, kv), doc_norm(name, si, kv)])
 
     def lineage_cells():
         path = rng.choice(taxa)
@@ -401,7 +425,7 @@ def gen_index_case(rng):
         body = rows[(0 if nh else 1):]
         rng.shuffle(body)
         rows = rows[:(0 if nh else 1)] + body
-    csvtok = "/".join("!" if r is None else ";".join(c.replace(" ", "~") for c in r) for r in rows) or "-"
+    csvtok = "/".join("!" if r is None else ";".join(tok(c) if c != "" else "" for c in r) for r in rows) or "-"
     order = list(range(nsig))
     rng.shuffle(order)
     lines.append(f"index 0 {','.join(opts)} {','.join(map(str, order))} {csvtok}")
@@ -655,8 +679,7 @@ def oracle(case, impl):
             if o == "sig":
                 if ok:
                     opts = dict(t.split("=", 1) for t in a[7:])
-                    S[int(a[0])] = dict(name="" if a[1] == "-" else a[1].replace("~", " "),
-                                        filename="" if a[2] == "-" else a[2].replace("~", " "), scaled=int(a[3]),
+                    S[int(a[0])] = dict(name=untok(a[1]), filename=untok(a[2]), scaled=int(a[3]),
                                         num=int(a[4]), ksize=int(a[5]), mol=int(opts.get("mol", 0)),
                                         md5=opts.get("md5", ""),
                                         hashes=[] if val == "-" else [int(x) for x in val.split(",")])
@@ -678,7 +701,7 @@ def oracle(case, impl):
                 db, sg = D[d], S[r]
                 # default identifier: the name, else the filename, else the first 8 characters of the md5sum
                 dflt = sg["name"] or sg["filename"] or sg["md5"][:8]
-                ident = dflt if a[2] == "-" else a[2].replace("~", " ")
+                ident = dflt if a[2] == "-" else untok(a[2])
                 valid = (sg["ksize"] == db.ksize and sg["mol"] == db.mol and not sg["num"] and 0 < sg["scaled"] <= db.scaled
                          and all(x["ident"] != ident for x in db.entries))
                 if not ok and valid:
@@ -700,11 +723,15 @@ def oracle(case, impl):
                     if sg["ksize"] != db.ksize or sg["mol"] != db.mol or sg["num"] or sg["scaled"] > db.scaled:
                         flag("C18:incompatible-accepted", "a sketch that cannot be brought to the database's ksize/scaled was accepted", d)
             elif o == "index":
-                D.pop(int(a[0]), None)        # the CLI glue is checked by correspondence with the model only
+                D.pop(int(a[0]), None)
+                if ok:
+                    db = _index_oracle(a, S)
+                    if db is not None:
+                        D[int(a[0])] = db
             elif o == "json" or o == "sql":
                 d, e = int(a[0]), int(a[1])
                 if d in D and ok:
-                    D[e] = D[d].copy(o if D[d].form == "mem" else D[d].form)
+                    D[e] = D[d].copy("sql" if o == "sql" else (o if D[d].form == "mem" else D[d].form))
                 elif d in D and o == "sql" and D[d].form == "mem":
                     if any(D[d].kept(x) for x in D[d].entries):
                         flag("C18:sql-conversion-refused", "conversion to the SQLite form failed", d)
@@ -781,6 +808,56 @@ def oracle(case, impl):
         except (ValueError, IndexError, KeyError) as ex:
             bad.append((idx, "C18:oracle-cannot-parse", f"`{op}` -> `{obs[:100]}`: {type(ex).__name__} {ex}"))
     return bad
+
+
+def _index_oracle(a, S):
+    """what `sourmash lca index` should have built, from its documentation: every selected, non-duplicate signature,
+    under its (normalised) name, with the lineage of the spreadsheet row whose (normalised) identifier is the same.
+    Returns None when the outcome is not determined by this simple reading (the command's own refusals are
+    compared with the model only)."""
+    ws = a[1].split(",")
+    num = lambda pre, dflt: next((int(x[len(pre):]) for x in ws if x.startswith(pre) and x[len(pre):].isdigit()), dflt)
+    ksize, scaled, mol, C = num("k", 21), num("s", 1), num("m", 0), num("C", 2)
+    si, kv, nh, force, rt = "si" in ws, "kv" in ws, "nh" in ws, "f" in ws, "rt" in ws
+    rows = [] if a[3] == "-" else [[] if r == "!" else [untok(c) if c else "" for c in r.split(";")] for r in a[3].split("/")]
+    if not nh:
+        rows = rows[1:]
+    asg = {}
+    for row in rows:
+        if not row or not row[0].strip():
+            continue
+        names = [(1000 if c.strip() in ("", "na", "null", "[Blank]") else int(c[1:])) for c in row[C - 1:C - 1 + NRANKS]]
+        while names and names[-1] == 1000:
+            names.pop()
+        if not names:
+            continue
+        key = doc_norm(row[0], si, kv)
+        lin = tuple(enumerate(names))
+        if key in asg and asg[key] != lin and not force:
+            return None
+        asg.setdefault(key, lin)
+    db = ODb(scaled, ksize)
+    db.mol = mol
+    db.form = "json"
+    seen = set()
+    for r in ([] if a[2] == "-" else [int(x) for x in a[2].split(",")]):
+        sg = S.get(r)
+        if sg is None:
+            return None
+        if sg["ksize"] != ksize or sg["mol"] != mol:
+            continue
+        if sg["md5"] in seen:
+            continue
+        seen.add(sg["md5"])
+        raw = sg["name"] or sg["filename"]
+        ident = doc_norm(raw, si, kv)
+        lin = asg.get(ident)
+        if lin is None and rt:
+            continue
+        # an empty identifier falls back to insert()'s default: name, filename, md5 prefix
+        db.entries.append(dict(ident=ident or sg["name"] or sg["filename"] or sg["md5"][:8], name=sg["name"],
+                               hashes=list(sg["hashes"]), lineage=lin))
+    return db
 
 
 def _check_query(db, d, o, a, ok, val, obs, flag):
@@ -874,6 +951,8 @@ def _check_query(db, d, o, a, ok, val, obs, flag):
         got = None
         if ok:
             got = [] if val == "-" else sorted(val.split("|"))
+        if ok and val == join_or("|", exp):
+            return                                  # (names may contain `|`: compare before splitting)
         if got != exp:
             nonempty = [x for x in exp if not x.endswith("=-")]
             if got == nonempty:
